@@ -27,6 +27,7 @@ func OnImplements(t reflect.Type, iface reflect.Type, input reflect.Value, op Tr
 	var newVal reflect.Value
 
 	wasPointer := false
+	origType := t
 
 	if t.Kind() == reflect.Ptr {
 		wasPointer = true
@@ -50,7 +51,9 @@ func OnImplements(t reflect.Type, iface reflect.Type, input reflect.Value, op Tr
 	}
 
 	if v.IsNil() {
-		return reflect.Zero(t), nil
+		// nothing was set: return the zero value of the type we were asked
+		// about (a nil pointer if it was a pointer type)
+		return reflect.Zero(origType), nil
 	}
 
 	if implemented == implementsAsPointer && !wasPointer {
